@@ -95,6 +95,8 @@ def gen_case(tp, tier):
                             ['cset', c, True]][k])
                 if ops[-1] == ['cset', c, True] and tp.draw(2):
                     ops.append(['csignal', c])
+                elif ops[-1][0] == 'cset' and tp.draw(3) == 0:
+                    ops[-1] = ops[-1] + ['fn']
             else:
                 t = 1 + tp.draw(max(1, nr - 1))
                 ops.append([tp.choice(['pause', 'resume', 'resume', 'stop']),
